@@ -158,6 +158,28 @@ SPECS = {
                      "one evaluation = one fault point (operation must Err, member and the three stores unchanged, retry Ok, final member and "
                      "stored history equal to the twin's); distinct = distinct (operation, storage call, position, second position); the "
                      "enumeration inside an operation is complete, histories are sampled"),
+    "C16": dict(shards=(8, 32), level="exploration",
+                floors={"quick": {"observer_agreement_checked": 800, "window_checked": 6000, "observer_restored": 60,
+                                  "external_proposal_accepted_by_member": 400, "observer_fed:commit": 500, "observer_fed:proposal": 800,
+                                  "negative:commit_bad_signature": 300, "negative:insider_rule_remove_of_blank_leaf": 20,
+                                  "observer_started:jitter_epoch+1": 8, "observer_started:jitter_huge": 8}},
+                show=("histories", "commit_accepted", "observer_", "window", "external_proposal", "negative"),
+                rule="seeded histories with public handshake messages; observers start at random epochs from a GroupInfo (+tree) with each "
+                     "max_epoch_jitter class (none, 0, 1, epoch-1, epoch, epoch+1, 2^40), receive every proposal and commit, are restored from "
+                     "serialized snapshots at random points, issue external-sender proposals of five kinds; one evaluation = one observer "
+                     "comparison with the members after a commit, one ciphertext window decision, one refused invalid message or one "
+                     "external proposal; distinct = distinct (check, jitter class, epoch distance / mutation class) cells"),
+    "C17": dict(shards=(8, 32), level="exploration",
+                floors={"quick": {"reinit_variant:equal": 15, "reinit_variant:strict_subset": 5, "reinit_variant:superset": 5,
+                                  "reinit_variant:replaced_identity": 5, "branch_variant:subset": 10, "branch_variant:with_stranger": 3,
+                                  "successor_joined": 40, "branch_joined": 40, "old_group_refuses_to_commit": 200,
+                                  "old_group_refuses_commit_after_reinit": 150, "plain_join_refused": 100, "old_shape:interior_blank_leaf": 15}},
+                show=("cases", "reinit_variant", "branch_variant", "successor", "branch_joined", "old_group", "plain_join", "negative", "old_shape", "wrong_member"),
+                rule="old-group histories of random shape, then a re-init (new group id, optionally new suite with new signers and new "
+                     "extensions) or a branch with a member set chosen by the harness (equal, strict subset, superset, replaced identity, "
+                     "permuted order); the verdict is computed from the identity sets; old-group freeze checked on every member (own build and "
+                     "a commit forged by an insider ignoring the freeze); mismatched joins (plain Client::join_group, Welcome of epoch 2, "
+                     "resumption secret of another epoch); distinct = distinct (flow, variant, key change) cells"),
     "C20": dict(shards=(4, 4), level="exploration", exhaustive=True,
                 floors={"quick": {"sizes_exhaustive": 13, "sizes_sampled": 12, "outside_nodes": 26}},
                 show=("sizes_", "inside_nodes", "outside_nodes", "lca_pairs"),
